@@ -37,12 +37,38 @@ CHECKS['C19'] = values_check.check_C19
 
 
 def replay(pid: str, path: str) -> int:
+    """re-run the history / pair / item / behaviour of a replay file on the current tree and let TLC judge it again"""
     with open(path) as f:
         doc = json.load(f)
     rp = doc['replay']
     run = Run(pid, 'quick', 0)
-    if rp.get('kind') == 'hand':
+    kind = rp.get('kind')
+    if kind == 'hand':
         rec = T.replay_record(rp['record'])
         T.validate(run, [rec], f'replay_{pid}', pid, jobs=1)
-        return 1 if run.violations else 0
-    raise SystemExit(f'unknown replay kind {rp.get("kind")}')
+    elif kind in ('pair', 'copy'):
+        # the first run of the pair, re-executed call by call and validated as a hand (the relation itself is re-decided by
+        # re-running the check with the seed recorded in the evidence)
+        rec = T.replay_record(rp['record']) if 'record' in rp else None
+        if rec is None:
+            raise SystemExit('this replay file carries no call record')
+        T.validate(run, [rec], f'replay_{pid}', pid, jobs=1)
+    elif kind == 'item':
+        from .items import run_items
+        print('re-judging the recorded question/answer with TLC (the answer is the one recorded when the violation was found):')
+        run_items(run, [rp['item']], f'replay_{pid}', jvms=1, workers=1)
+    elif kind == 'mc-replay':
+        from . import mc
+        inst = {'cfgs': [{'cfg': rp['cfg'], 'decks': [rp['deck']]}]}
+        beh = dict(rp['behaviour'], cid=1, did=1)
+        rec, followed = mc.replay_behaviour(1, inst, beh)
+        print('the code follows the behaviour:', followed)
+        T.validate(run, [rec], f'replay_{pid}', pid, jobs=1)
+        if not followed:
+            run.violation('spec-behaviour-not-followed', 'the behaviour of the model is not a behaviour of the code', rp)
+    elif kind == 'mc':
+        print('a violated model invariant: see', rp.get('log'), '- re-run ./check', pid)
+        return 1
+    else:
+        raise SystemExit(f'unknown replay kind {kind}')
+    return 1 if run.violations else 0
